@@ -60,6 +60,10 @@ pub const SEEDS: [&str; 50] = [
     "4k3/8/8/8/8/8/1p4p1/R3K2R b KQ - 0 1",
 ];
 
+pub fn mirror_fen_pub(fen: &str) -> String {
+    mirror_fen(fen)
+}
+
 fn mirror_fen(fen: &str) -> String {
     let f: Vec<&str> = fen.split(' ').collect();
     let rows: Vec<String> = f[0]
